@@ -20,7 +20,7 @@ Definition two63 : Z := 9223372036854775808.
 Definition two64 : Z := 18446744073709551616.
 Definition min64 : Z := - two63.
 Definition max64 : Z := two63 - 1.
-Definition u32 (z : Z) : Z := z mod two32.
+Definition u32 (z : Z) : Z := Z.land z (two32 - 1).   (* the low 32 bits: uint32 wrap-around *)
 Definition u64 (z : Z) : Z := z mod two64.
 Definition i64 (z : Z) : Z := (z + two63) mod two64 - two63.
 Definition in_i64 (z : Z) : bool := (min64 <=? z) && (z <=? max64).
@@ -226,6 +226,8 @@ Definition sentries (ops : list op) : list sentry := map classify_entry (resolve
 Definition spec_outcomes (c : cfg) (ops : list op) : list outcome :=
   let es := sentries ops in outcomes_of (spec_decs c [] es) es.
 
+Definition dec_of_bool (b : bool) : dec := if b then DKeep else DDrop.
+
 (* the "cut into windows, number from 1" reading of [wstep], for one budget (see Proofs.spec_window) *)
 Fixpoint take_window (end_ : Z) (ts : list Z) : list Z * list Z :=
   match ts with
@@ -385,7 +387,7 @@ Definition batch_in_window (c : cfg) (pre batch : list op) : bool :=
   forallb is_log batch &&
   match skipn (n_logs pre) (sentries (pre ++ batch)) with
   | [] => true
-  | e0 :: _ as bes =>
+  | (e0 :: _) as bes =>
       match se_cls e0 with
       | CKey k =>
           match wstate (c_tick c) (hist k (sentries pre)) with
@@ -402,6 +404,22 @@ Definition wf (i : sx) : bool :=
   if is_conc i then let batch := dec_ops (sx_nth i 5) in wf_run c (pre ++ batch) && batch_in_window c pre batch
   else wf_run c pre.
 
+(* what the specification prescribes for a concurrent batch inside the open window of budget k:
+   as many kept records as the one-pass window numbering keeps for that many further entries
+   (C11_atomic_exact: the order of arrival is irrelevant), in canonical order *)
+Definition conc_expected (c : cfg) (pre batch : list op) : list outcome :=
+  match skipn (n_logs pre) (sentries (pre ++ batch)) with
+  | [] => []
+  | (e0 :: _) as bes =>
+      match se_cls e0 with
+      | CKey k =>
+          canon (map (fun b => outcome_of (dec_of_bool b) 0)
+                     (key_decs (c_first c) (c_thereafter c) (c_tick c)
+                               (wstate (c_tick c) (hist k (sentries pre))) (map se_tn bes)))
+      | _ => []
+      end
+  end.
+
 (* the oracle: the observation is what the specification prescribes.  Cases outside the theorems'
    hypotheses (tn + tick overflowing int64 etc.) are only compared model-vs-implementation. *)
 Definition spec (i o : sx) : bool :=
@@ -410,7 +428,8 @@ Definition spec (i o : sx) : bool :=
   if is_conc i then
     let batch := dec_ops (sx_nth i 5) in
     if negb (wf_run c (pre ++ batch)) then true
-    else batch_in_window c pre batch && sx_eqb o (enc_obs true (n_logs pre) (spec_outcomes c (pre ++ batch)))
+    else batch_in_window c pre batch &&
+         sx_eqb o (SL [SL (map enc_outcome (spec_outcomes c pre)); SL (map enc_short (conc_expected c pre batch))])
   else
     if negb (wf_run c pre) then true
     else sx_eqb o (enc_obs false 0 (spec_outcomes c pre)).
